@@ -26,6 +26,8 @@ var c06Vals = []c06Val{
 	{"t", true, true}, {"f", false, false}, {"z", 0, false}, {"o", 1, true}, {"e", "", false}, {"s", "a", true}, {"n", nil, false},
 	// numbers carried by decimal.Decimal (which also has a String method): zero and negative are false like any other number
 	{"dz", decimal.Zero, false}, {"dn", decimal.New(-15, -1), false}, {"dp", decimal.New(25, -1), true},
+	// negative numbers in plain carriers: a float64 as arithmetic produces it, an int as a host passes it; a positive fraction
+	{"fn", -1.5, false}, {"ng", -2, false}, {"fp", 0.5, true},
 }
 
 func c06Ctx() map[string]stick.Value {
@@ -300,7 +302,7 @@ func c06Levels(tier string) []core.Level {
 		maxNest, maxLen = 5, 16
 	}
 	lv := []core.Level{
-		{Name: "if / elseif / else chains with <= 3 conditions: every assignment of 10 values (incl. decimal.Decimal zero, negative, positive) x presence of else", Gen: func(emit func(core.Case)) {
+		{Name: "if / elseif / else chains with <= 3 conditions: every assignment of 13 values (incl. decimal.Decimal zero, negative, positive; a negative float64 and int, a positive fraction) x presence of else", Gen: func(emit func(core.Case)) {
 			nv := len(c06Vals)
 			for n := 1; n <= 3; n++ {
 				idx := make([]int, n)
@@ -476,6 +478,17 @@ func c06Levels(tier string) []core.Level {
 			for k := 5; k <= 150; k += 5 {
 				emit(core.Case{Fam: "manyelseif", N: []int{1, k, 0}})
 				emit(core.Case{Fam: "manyelseif", N: []int{2, k, 1}})
+			}
+			// inline conditions whose answer changes while the loop runs
+			for form := 0; form < 4; form++ {
+				for k := 0; k <= 6; k++ {
+					for ln := 0; ln <= 5; ln++ {
+						if form == 3 && k > 0 {
+							continue
+						}
+						emit(core.Case{Fam: "forifstate", N: []int{form, k, ln}})
+					}
+				}
 			}
 			for fi := range c02FilterNames() {
 				for car := 0; car < 5; car++ {
@@ -685,6 +698,66 @@ func c06Run(c core.Case) core.Result {
 		return c06Compare(src, c06Ctx(), want, true)
 	case "afternested":
 		return c06AfterNested(c.N[0])
+	case "forifstate":
+		// an inline condition is evaluated for every element, when that element is reached: a condition that reads a
+		// variable the body updates, or calls a counting host function, changes its answer while the loop runs
+		form, k, ln := c.N[0], c.N[1], c.N[2]
+		elems := []string{"a", "b", "c", "d", "e"}[:ln]
+		ticks := 0
+		env := stick.New(nil)
+		env.Functions["tick"] = func(ctx stick.Context, args ...stick.Value) stick.Value { ticks++; return ticks }
+		taken := k
+		if ln < k {
+			taken = ln
+		}
+		src, want := "", ""
+		switch form {
+		case 0:
+			src = "{% set n = 0 %}{% for x in xs if n < " + itoa(k) + " %}{{ x }}{% set n = n + 1 %}{% else %}E{% endfor %}|{{ n }}"
+			want = strings.Join(elems[:taken], "")
+			if ln == 0 {
+				want = "E" // the else branch belongs to the empty sequence, not to the sequence whose elements are all rejected
+			}
+			want += "|" + itoa(taken)
+		case 1:
+			src = "{% for x in xs if tick() <= " + itoa(k) + " %}{{ x }}{% else %}E{% endfor %}|{{ tick() }}"
+			want = strings.Join(elems[:taken], "")
+			if ln == 0 {
+				want = "E" // the else branch belongs to the empty sequence, not to the sequence whose elements are all rejected
+			}
+			want += "|" + itoa(ln+1)
+		case 2:
+			// the counter survives the inner loop: rows share a budget of k cells
+			src = "{% set n = 0 %}{% for r in [1, 2, 3] %}{% for x in xs if n < " + itoa(k) + " %}{{ r }}{{ x }}{% set n = n + 1 %}{% endfor %};{% endfor %}{{ n }}"
+			left := k
+			for r := 1; r <= 3; r++ {
+				for _, e := range elems {
+					if left > 0 {
+						want += itoa(r) + e
+						left--
+					}
+				}
+				want += ";"
+			}
+			want += itoa(k - left)
+		case 3:
+			// a flag the body flips: every other element
+			src = "{% set on = true %}{% for x in xs if on or x == 'e' %}{{ x }}{% set on = false %}{% endfor %}"
+			for i, e := range elems {
+				if i == 0 || e == "e" {
+					want += e
+				}
+			}
+		}
+		xs := []stick.Value{}
+		for _, e := range elems {
+			xs = append(xs, e)
+		}
+		out, err, pan := tryExec(env, src, map[string]stick.Value{"xs": xs})
+		if pan != "" || err != nil || out != want {
+			return core.Violation("for-if", fmt.Sprintf("%s over %v renders %q (%v %s), want %q", src, elems, out, err, pan, want))
+		}
+		return core.Okay(true, out)
 	case "hostseq":
 		return c06HostSeq(c.N[0], c.N[1])
 	case "litchain":
